@@ -201,7 +201,9 @@ def run_session(loop, limit, ops):
             if self.fail_next == "write":
                 self.fail_next = None
                 raise ConnectionResetError("write failed")
-            self.log.append([bytes(data), True])
+            # like asyncio's transports, keep the object that was handed over (they queue it when the
+            # socket is not ready) next to a copy of what it held at that moment
+            self.log.append([bytes(data), True, data])
             super().write(data)
 
         async def drain(self):
@@ -223,6 +225,27 @@ def run_session(loop, limit, ops):
 
     t = T()
     outs = []
+    conn = {"buf": b"", "pos": 0, "eof": False}      # the current connection's stream, from the property text
+
+    def expect_read(res):
+        """Successive reads return exactly the newline-terminated lines of the CURRENT connection's
+        stream, in order; returns a complaint or None, and advances."""
+        buf, pos = conn["buf"], conn["pos"]
+        idx = buf.find(b"\n", pos)
+        if res.startswith("L"):
+            got = "".join(chr(int(x)) for x in res.split()[1:]).encode("utf-8", "surrogatepass")
+            want = buf[pos:idx + 1] if idx >= 0 else None
+            if want is not None:
+                conn["pos"] = idx + 1
+            if got != want:
+                return f"read returned {got!r}, the next line of this connection's stream is {want!r}"
+        elif res == "RE":
+            if idx >= 0 and idx - pos <= limit:
+                conn["pos"] = idx + 1                      # an undecodable line was consumed
+            elif idx < 0 and len(buf) - pos <= limit and conn["eof"]:
+                conn["pos"] = len(buf)                     # the incomplete tail at end of stream
+        return None
+
     for op in ops:
         try:
             if op[0] == "C":
@@ -230,6 +253,7 @@ def run_session(loop, limit, ops):
                 try:
                     loop.run_until_complete(t.connect())
                     outs.append("ok")
+                    conn.update(buf=b"", pos=0, eof=False)
                 except ex.TransportError:
                     outs.append("CE")
             elif op[0] == "D":
@@ -243,10 +267,12 @@ def run_session(loop, limit, ops):
             elif op[0] == "F":
                 if st["readers"]:
                     st["readers"][-1].feed_data(op[1])
+                    conn["buf"] += op[1]
                 outs.append("ok")
             elif op[0] == "E":
                 if st["readers"]:
                     st["readers"][-1].feed_eof()
+                    conn["eof"] = True
                 outs.append("ok")
             elif op[0] == "R":
                 if st["readers"]:
@@ -260,6 +286,10 @@ def run_session(loop, limit, ops):
                     task.cancel()
                     spin(loop, 2)
                     outs.append("P")
+                if st["readers"] and not op[1]:
+                    complaint = expect_read(outs[-1])
+                    if complaint:
+                        st.setdefault("complaints", []).append(complaint)
                 if st["readers"]:
                     st["readers"][-1].fail_next = False
             elif op[0] == "W":
@@ -275,13 +305,28 @@ def run_session(loop, limit, ops):
         except Exception as e:  # noqa: BLE001
             outs.append("ESCAPE " + type(e).__name__)
     closes = sum(w.closed for w in st["writers"])
-    out = b"".join(d for d, ok in st["writers"][-1].log if ok) if st["writers"] else b""
+    out = b"".join(e[0] for e in st["writers"][-1].log if e[1]) if st["writers"] else b""
+    for cpl in st.get("complaints", [])[:1]:
+        outs.append("ESCAPE-READ " + cpl)
+    for w in st["writers"]:
+        for e in w.log:
+            if bytes(e[2]) != e[0]:
+                outs.append(f"ESCAPE bytes handed to the stream changed after write() returned: {e[0]!r} became {bytes(e[2])!r}")
+                break
     return outs, closes, out
 
 
 def gen_sessions(ctx, rng):
     lines = ["1;2;1;0;2;x\n", "7;255;3;0;0;55\n", "\u00e5\u20ac\n", "no newline", ""]
     cases = []
+    # a session that ends inside a line (or inside a multi-byte character), then the same object is
+    # connected again: the new session starts clean, nothing of the old tail shows up
+    for tail in (b"1;1;1;0", b"caf\xc3", b"7;255;3;0;0;5", b"\xe2\x82"):
+        for nxt in (b"2;2;1;0;2;1\n", b"\xa9;1\n", b"\n", b"\xac\n"):
+            for reads_before in (0, 1, 2):
+                cases.append((64, [("C", True), ("F", b"ok;1\n" + tail)] + [("R", False)] * reads_before + [("E",)]
+                              + [("R", False)] * (3 - reads_before) + [("D", False), ("C", True), ("F", nxt), ("R", False), ("R", False),
+                                 ("W", "after\n", False), ("D", False)]))
     for _ in range(ctx.budget(250, 4000)):
         limit = rng.choice([8, 64])
         ops = [("C", True)] if rng.random() < 0.7 else []
@@ -512,6 +557,14 @@ def run(ctx, model_available=True):
                                  "case": {"limit": limit, "ops": [list(map(str, o)) for o in ops]}})
             if o[0] == "D" and x != "ok":
                 failures.append({"kind": "oracle", "sig": "C17:disconnect", "desc": f"disconnect raised ({x})", "case": {"limit": limit, "ops": [list(map(str, o)) for o in ops]}})
+        for extra in outs_i[len(ops):]:
+            if extra.startswith("ESCAPE-READ "):
+                failures.append({"kind": "oracle", "sig": "C17:reads-session", "desc": "one transport object over several connections: " + extra[12:],
+                                 "case": {"limit": limit, "ops": [list(map(str, o)) for o in ops]}})
+            else:
+                failures.append({"kind": "oracle", "sig": "C17:write-aliased", "desc": extra[7:] + " (each write must put exactly the bytes of its line on the stream)",
+                                 "case": {"limit": limit, "ops": [list(map(str, o)) for o in ops]}})
+        outs_i = outs_i[:len(ops)]
         kinds.add(("session", tuple(sorted({x[:2] for x in outs_i}))))
         d2.add(enc_session(limit, ops))
         exp2.append((limit, ops, "".join(x + "|" for x in outs_i) + f"closes={closes} out=" + "".join(f"{b}," for b in out)))
